@@ -22,6 +22,10 @@ type C04Case struct {
 	// Alias: the two table aliases ("" = x / y). They may be spelled like a column or like the tables themselves.
 	Alias [2]string `json:"alias,omitempty"`
 	Env   Envelope  `json:"env,omitempty"` // irrelevant options / table representation / history (never Wrapped: joins name two tables)
+	// Scale: one operand (ScaleSide "l" | "r") is expanded to 200-700 rows by this recipe before anything is computed;
+	// its first key column is spread over the pair's pool plus many values the other side does not hold
+	Scale     *Scale `json:"scale,omitempty"`
+	ScaleSide string `json:"scale_side,omitempty"`
 }
 
 func init() {
@@ -31,7 +35,7 @@ func init() {
 		Rule: "rapid draws two tables (0-6 rows) with 1-3 key columns per side whose names are drawn independently (so they sort differently on " +
 			"the two sides), key values from shared pools of 2-3 values (duplicates, multi-column combinations, strings containing '-' and " +
 			"digits-as-text; a third of the numeric key columns are handed over as native Go int*/uint*/float32 values, independently per side; a sixth of the pairs as int64 / uint64 beyond 2^53 on both sides, mapped back exactly from the raw result), an ON tree of column-to-column comparisons (= != < <= > >=, either orientation) joined by AND/OR (depth<=3; pure " +
-			"equi-conjunctions forced often) and a join type; every applicable spelling (JOIN, INNER JOIN, STRAIGHT_JOIN, [LEFT|RIGHT] [OUTER] JOIN, " +
+			"equi-conjunctions forced often) and a join type (about 2% of the pure equi cases expand one operand to 200-700 rows by a recipe, its first key column spread over the shared pool plus up to 300 values the other side lacks); every applicable spelling (JOIN, INNER JOIN, STRAIGHT_JOIN, [LEFT|RIGHT] [OUTER] JOIN, " +
 			"HASH_JOIN variants for pure equi ON, each also PARALLEL, PARALLEL ones repeated) plus a permuted/flipped ON is executed; oracle = " +
 			"nested-loop reference multiset {x:l,y:r} + unmatched outer rows once. Non-trivial: both sides non-empty, >=1 matching pair and, " +
 			"for outer joins, >=1 unmatched preserved row.",
@@ -233,6 +237,31 @@ func genC04(t *rapid.T) any {
 	}
 	c.OnAlt = alt(c.On, "alt")
 	c.Reps = 5
+	// scale: strategies that depend on the size of an operand (partitioning, chunking, build side) must return the
+	// same multiset; pure equi-conjunctions only, so that the result stays small
+	if equi && !strings.HasPrefix(c.GoTypes["l"][pairs[0].l], "big") {
+		side := rapid.SampledFrom([]string{"l", "r"}).Draw(t, "scale.side")
+		if rows, _ := c.Doc[side].([]any); len(rows) > 0 {
+			if sc := genScale(t, 14, "scale"); sc != nil {
+				pool := append([]any{}, pairs[0].pool...)
+				extra := rapid.SampledFrom([]int{0, 5, 60, 300}).Draw(t, "scale.extra")
+				for j := 0; j < extra; j++ {
+					if pairs[0].kind == "int" {
+						pool = append(pool, float64(20+j))
+					} else {
+						pool = append(pool, fmt.Sprintf("z%d", j))
+					}
+				}
+				col := pairs[0].l
+				if side == "r" {
+					col = pairs[0].r
+				}
+				sc.genKeys(t, col, pool, "scale.key")
+				c.Scale, c.ScaleSide = sc, side
+				c.Reps = 2
+			}
+		}
+	}
 	return c
 }
 
@@ -446,6 +475,13 @@ func c04KnownKey(c *C04Case) string {
 
 func checkC04(c *C04Case) Result {
 	res := Result{}
+	if c.Scale != nil {
+		cc := *c
+		cc.Doc, cc.Scale = c.Scale.ExpandDoc(c.Doc, c.ScaleSide), nil
+		res = checkC04(&cc)
+		res.Labels = append(res.Labels, "large-operand:"+c.ScaleSide)
+		return res
+	}
 	l, _ := c.Doc["l"].([]any)
 	r, _ := c.Doc["r"].([]any)
 	want, pairs, unmatched, err := refJoin(l, r, c.On, c.Type)
